@@ -1,5 +1,6 @@
-\* hashdb, exhaustive (quick): updates touch 3 of the 4 keys
-\* (forks are free: the database does not track state roots), Commit / cache warm-up / restart anywhere
+\* hashdb, exhaustive, quick: 2 tries of height 2, <= 3 updates touching 3 keys from any known state (forks are free: the
+\* database does not track state roots), Commit / cache warm-up / restart (2) anywhere
+\* measured: 16 411 distinct states, depth 8 (14 s, 4 workers)
 CONSTANTS
   H = 2
   MaxV = 1
